@@ -191,30 +191,29 @@ impl<TStorage: ?Sized + ReadableStorageTraits> ListableStorageTraits
     fn list_dir(&self, prefix: &StorePrefix) -> Result<StoreKeysPrefixes, StorageError> {
         let zip_archive = self.zip_archive.lock().unwrap();
         let mut keys: StoreKeys = vec![];
-        let mut prefixes: StorePrefixes = vec![];
+        let mut prefixes: std::collections::BTreeSet<StorePrefix> = std::collections::BTreeSet::new();
         for name in zip_archive
             .file_names()
             .filter_map(|name| self.zip_file_strip_prefix(name))
         {
-            if name.starts_with(prefix.as_str()) {
-                if name.ends_with('/') {
-                    if let Ok(store_prefix) = StorePrefix::try_from(name) {
-                        if let Some(parent) = store_prefix.parent() {
-                            if &parent == prefix {
-                                prefixes.push(store_prefix);
-                            }
-                        }
+            // Archives need not hold explicit directory entries: derive prefixes from the file names
+            if name.ends_with('/') {
+                continue;
+            }
+            if let Some(name_rel) = name.strip_prefix(prefix.as_str()) {
+                if let Some((child, _)) = name_rel.split_once('/') {
+                    if let Ok(store_prefix) =
+                        StorePrefix::new(prefix.as_str().to_string() + child + "/")
+                    {
+                        prefixes.insert(store_prefix);
                     }
                 } else if let Ok(store_key) = StoreKey::try_from(name) {
-                    let parent = store_key.parent();
-                    if &parent == prefix {
-                        keys.push(store_key);
-                    }
+                    keys.push(store_key);
                 }
             }
         }
         keys.sort();
-        prefixes.sort();
+        let prefixes: StorePrefixes = prefixes.into_iter().collect();
 
         Ok(StoreKeysPrefixes::new(keys, prefixes))
     }
